@@ -59,6 +59,16 @@ def f_pred(m, r, x):
     return crc(x) % m != r
 
 
+def f_pred_int(m, r, x):
+    """Same selection as f_pred, but a truthy / falsy INT instead of a bool (a common idiom: x % 2)."""
+    return (crc(x) - r) % m
+
+
+def f_none(m, r, x):
+    """Maps some examples to None (a legitimate example value)."""
+    return None if crc(('none', x)) % m == r else x
+
+
 def f_key(m, x):
     return crc(x) % m
 
